@@ -540,7 +540,7 @@ def run(ctx):
         ctx.search("create", cases(), quick=700)
     else:
         ctx.enumerate("create", grid_cases(), name="option-grid")
-        ctx.search("create", cases(), quick=700, thorough=1500)
+        ctx.search("create", cases(), quick=700, thorough=6000)
 
 
 MUTANTS = [
